@@ -267,6 +267,20 @@ def _convex2(case, rec):
     step = {(b - a) % n for a, b in zip(cyc, cyc[1:] + cyc[:1])}
     rec.check(step in ({1}, {n - 1}), "stored_cycle_is_hull_cycle", sig, cycle=cyc)
     _alias_check(rec, r, [arg_v, arg_nn], sig, maxnorm(Vp))
+    # the very same vertex list handed to Polygon afterwards is judged on its own merits: what an earlier constructor
+    # call accepted (ConvexPolygon may be given any order) says nothing about this cycle
+    u_, v_, _ = geom.plane_frame(em["nplus"])
+    P2 = np.stack([(Vp - Vp.mean(axis=0)) @ u_, (Vp - Vp.mean(axis=0)) @ v_], axis=1)
+    cyc_in = [idx[tuple(v)] for v in Vp]
+    hull_order = {(b - a) % n for a, b in zip(cyc_in, cyc_in[1:] + cyc_in[:1])} in ({1}, {n - 1})
+    kw2 = {} if arg_n is None else {"normal": arg_n.copy() if isinstance(arg_n, np.ndarray) else arg_n}  # (the alias check scribbled on kw's)
+    r2 = call(S.Polygon, _contain(Vp, case["container"]), **kw2)
+    s2 = dict(sig, then="Polygon")
+    if hull_order:
+        rec.check(not isinstance(r2, Raised), "valid_polygon_accepted", dict(s2, type=getattr(r2, "type", "")), error=getattr(r2, "msg", ""))
+    elif _proper_crossing(P2):
+        rec.label("then_polygon_crossing")
+        rec.check(isinstance(r2, Raised) and r2.type == "ValueError", "crossing_polygon_rejected_with_ValueError", s2, got=repr(r2)[:100])
 
 
 @st.composite
